@@ -101,6 +101,24 @@ static const std::vector<int> XI = {-7, -1, 0, 1, 2, 5, 12, 100, -128, 3, 64, 9}
 static const std::vector<int> XS = {0, 1, 2, 5, 12, 100, 7, 9, 3, 33, 64, 1};     // non-negative (shifts)
 static const std::vector<int> YI = {3, 1, 5, 2, 7, 1, 4, 3, 2, 6, 1, 8};            // positive, < width
 
+// operand regimes.  "n": the moderate values above.  "x": the ends of the element type's range — large (MAX/2, k*sqrt(MAX)),
+// tiny (k*sqrt(MIN), MIN, denormals), +-0, +-inf, NaN; the second operand pairs large/large, tiny/tiny, large/tiny, 0/inf ...
+#include <limits>
+template <typename T> static std::vector<T> regime_x() {
+    using L = std::numeric_limits<T>; const T mx = L::max(), mn = L::min(), dn = L::denorm_min(), inf = L::infinity(), nan = L::quiet_NaN();
+    const T sM = std::sqrt(mx), sm = std::sqrt(mn);
+    return { mx / 2, sM * T(1.5), sM * T(0.75), -sM * T(1.25), T(3) * (sM / 4), sm * T(1.5), sm * T(0.75), -sm * T(3), mn, dn * 3, -dn,
+             T(0), -T(0), inf, -inf, nan, T(1), -T(2.5), mx, -mx, T(3e30), T(3e-30) };
+}
+template <typename T> static std::vector<T> regime_y() {
+    using L = std::numeric_limits<T>; const T mx = L::max(), mn = L::min(), dn = L::denorm_min(), inf = L::infinity(), nan = L::quiet_NaN();
+    const T sM = std::sqrt(mx), sm = std::sqrt(mn);
+    return { mx / 4, sM * T(2), sM, sM * T(0.5), T(4) * (sM / 4), sm * T(2), sm, sm * T(4), dn * 5, mn, T(1),
+             inf, T(0), T(2), -inf, T(1), nan, mx, sm, mx, T(4e30), T(4e-30) };
+}
+template <typename T> static std::vector<T> input_x(const std::string& regime) { if (regime == "x") return regime_x<T>(); return std::vector<T>(X.begin(), X.end()); }
+template <typename T> static std::vector<T> input_y(const std::string& regime) { if (regime == "x") return regime_y<T>(); return std::vector<T>(Y.begin(), Y.end()); }
+
 template <typename T> static dyn_t<T> arr(const std::vector<T>& v) {
     dyn_t<T> a; a.resize(std::vector<size_t>{v.size()});
     for (size_t i = 0; i < v.size(); i++) a(i) = v[i];
@@ -136,8 +154,8 @@ static std::string check2(const std::string& fn, const V& mv, const In1& a, cons
 
 #define UNT(NAME, EXPR)     if (fn == #NAME) return check1(fn, view::NAME(x), XT, [](T t) { return EXPR; });
 template <typename T>
-static std::string handle_a(const std::string& fn) {
-    const std::vector<T> XT(X.begin(), X.end());
+static std::string handle_a(const std::string& fn, const std::string& regime = "n") {
+    const std::vector<T> XT = input_x<T>(regime);
     auto x = arr(XT);
     constexpr T PI = T(3.141592653589793238462643383279502884197);
     UNT(arccos, std::acos(t)) UNT(arccosh, std::acosh(t)) UNT(arcsin, std::asin(t)) UNT(arcsinh, std::asinh(t))
@@ -152,22 +170,35 @@ static std::string handle_a(const std::string& fn) {
     UNT(degrees, t * (static_cast<T>(180) / PI)) UNT(rad2deg, t * (static_cast<T>(180) / PI))
     return "";
 }
+#define BINT(NAME, EXPR)    if (fn == #NAME) return check2(fn, view::NAME(x, y), XT, YT, [](T t, T u) { return EXPR; });
+template <typename T>
+static std::string handle_bt(const std::string& fn, const std::string& regime) {
+    const std::vector<T> XT = input_x<T>(regime), YT = input_y<T>(regime);
+    auto x = arr(XT); auto y = arr(YT);
+    BINT(add, t + u) BINT(subtract, t - u) BINT(multiply, t * u) BINT(divide, t / u) BINT(arctan2, std::atan2(t, u))
+    BINT(fmod, std::fmod(t, u)) BINT(hypot, std::hypot(t, u)) BINT(power, std::pow(t, u)) BINT(fmax, std::fmax(t, u))
+    BINT(fmin, std::fmin(t, u)) BINT(maximum, t > u ? t : u) BINT(minimum, t < u ? t : u)
+    BINT(equal, t == u) BINT(not_equal, t != u) BINT(greater, t > u) BINT(greater_equal, t >= u) BINT(less, t < u) BINT(less_equal, t <= u)
+    BINT(logical_and, static_cast<bool>(t) && static_cast<bool>(u)) BINT(logical_or, static_cast<bool>(t) || static_cast<bool>(u))
+    BINT(logical_xor, static_cast<bool>(t) ^ static_cast<bool>(u))
+    if (fn == "ldexp") { auto yi = arr(YI); std::vector<T> x12(XT.begin(), XT.begin() + 12); return check2(fn, view::ldexp(arr(x12), yi), x12, YI, [](T t, int u) { return std::ldexp(t, u); }); }
+    return "";
+}
 static std::string handle_b(const std::string& fn) {
-    auto x = arr(X); auto y = arr(Y); auto yi = arr(YI);
-    BIN(add, t + u) BIN(subtract, t - u) BIN(multiply, t * u) BIN(divide, t / u) BIN(arctan2, std::atan2(t, u))
-    BIN(fmod, std::fmod(t, u)) BIN(hypot, std::hypot(t, u)) BIN(power, std::pow(t, u)) BIN(fmax, std::fmax(t, u))
-    BIN(fmin, std::fmin(t, u)) BIN(maximum, t > u ? t : u) BIN(minimum, t < u ? t : u)
-    BIN(equal, t == u) BIN(not_equal, t != u) BIN(greater, t > u) BIN(greater_equal, t >= u) BIN(less, t < u) BIN(less_equal, t <= u)
-    BIN(logical_and, static_cast<bool>(t) && static_cast<bool>(u)) BIN(logical_or, static_cast<bool>(t) || static_cast<bool>(u))
-    BIN(logical_xor, static_cast<bool>(t) ^ static_cast<bool>(u))
-    if (fn == "ldexp") return check2(fn, view::ldexp(x, yi), X, YI, [](double t, int u) { return std::ldexp(t, u); });
+    auto yi = arr(YI);
     IBIN(bitwise_and, XI, t & u) IBIN(bitwise_or, XI, t | u) IBIN(bitwise_xor, XI, t ^ u) IBIN(mod, XI, t % u)
     IBIN(left_shift, XS, t << u) IBIN(right_shift, XS, t >> u)
     if (fn == "invert") return check1(fn, view::invert(arr(XI)), XI, [](int t) { return ~t; });
     return "";
 }
-static std::string handle_c(const std::string& fn) {
-    auto x = arr(X);
+#undef UN
+#undef UNP
+#define UN(NAME, EXPR)      if (fn == #NAME) return check1(fn, view::NAME(x), XT, [](T t) { return EXPR; });
+#define UNP(NAME, CALL, EXPR) if (fn == #NAME) return check1(fn, CALL, XT, [](T t) { return EXPR; });
+template <typename T>
+static std::string handle_c(const std::string& fn, const std::string& regime) {
+    const std::vector<T> XT = input_x<T>(regime);
+    auto x = arr(XT);
     UN(relu, t > 0 ? t : 0.0) UN(relu6, t < 0 ? 0.0 : (t > 6 ? 6.0 : t)) UN(sigmoid, 1.0 / (1.0 + std::exp(-t)))
     UN(silu, t * (1.0 / (1.0 + std::exp(-t)))) UN(softsign, t / (1 + (t > 0 ? t : -t))) UN(tanhshrink, t - std::tanh(t))
     UN(hardswish, t < -3 ? 0.0 : (t >= 3 ? t : t * (t + 3) / 6)) UN(log_sigmoid, std::log(1.0 / (1.0 + std::exp(-t))))
@@ -184,13 +215,23 @@ static std::string handle_c(const std::string& fn) {
     return "";
 }
 
+template <typename T>
+static std::string handle_t(const std::string& fn, const std::string& regime, bool with_activations) {
+    std::string r = handle_a<T>(fn, regime); if (!r.empty()) return r;
+    r = handle_bt<T>(fn, regime); if (!r.empty()) return r;
+    if constexpr (std::is_same_v<T, double>) { if (with_activations) { r = handle_c<T>(fn, regime); if (!r.empty()) return r; } }
+    return "";
+}
 static std::string handle(const Case& c) {
+    // ident S:<fn> [S:<f64|f32> [S:<n|x>]]
     if (c.op != "ident") return "unsupported";
     const std::string fn = c.args[0].raw.substr(2);
-    if (c.args.size() >= 2 && c.args[1].raw == "S:f32") { std::string r = handle_a<float>(fn); return r.empty() ? "unsupported" : r; }
-    std::string r = handle_a<double>(fn); if (!r.empty()) return r;
-    r = handle_b(fn); if (!r.empty()) return r;
-    r = handle_c(fn); if (!r.empty()) return r;
+    const std::string ty = c.args.size() >= 2 ? c.args[1].raw.substr(2) : "f64", regime = c.args.size() >= 3 ? c.args[2].raw.substr(2) : "n";
+    std::string r;
+    // activations: double only (the formulas use double parameters / constants)
+    if (ty == "f32") r = handle_t<float>(fn, regime, false); else r = handle_t<double>(fn, regime, true);
+    if (!r.empty()) return r;
+    if (ty == "f64" && regime == "n") { r = handle_b(fn); if (!r.empty()) return r; }
     return "unsupported";
 }
 int main() { return vd::run_main(handle); }
